@@ -172,9 +172,8 @@ func (p *Program) generate(j *Job) {
 				} else {
 					fs.allowed[name] = append(fs.allowed[name], ref)
 				}
-				if strings.HasPrefix(name, "mapdom:") {
-					fs.allowed[strings.Replace(name, "mapdom:", "mapval:", 1)] = append(fs.allowed[strings.Replace(name, "mapdom:", "mapval:", 1)], ref)
-					fs.allowed[strings.Replace(name, "mapdom:", "mapsize:", 1)] = append(fs.allowed[strings.Replace(name, "mapdom:", "mapsize:", 1)], ref)
+				for _, nm := range expandMod(name) {
+					fs.allowed[nm] = append(fs.allowed[nm], ref)
 				}
 			}
 			j.frame = fs
